@@ -1226,13 +1226,33 @@ pub fn run(rec: &mut Recorder, cases_path: &str, thorough: bool, seed: u64, kind
             }
             fn with_header<B: Backend, K: paseto_core::key::KeyType>(rec: &mut Recorder, header: &str, exact: bool, kind: &str, body: &[u8], total: &mut u64) {
                 let text = format!("{header}{}", crate::b64::enc(body));
-                let r = catch_unwind(AssertUnwindSafe(|| text.parse::<KeyId<B::V, K>>().map(|k| (k.to_string(), k.as_bytes().to_vec()))));
-                let (ok, back, bytes_back, panic) = match r {
-                    Ok(Ok((t, b))) => (true, t == text, b[..] == body[..], false),
-                    Ok(Err(_)) => (false, false, false, false),
-                    Err(_) => (false, false, false, true),
+                with_text::<B, K>(rec, &text, header, exact, kind, body, total);
+                if exact && body.len() == 33 {
+                    // the same id text inside white space, and with a two-byte character whose bytes, top bits dropped, are alphabet
+                    // characters (in place of two characters of a group): not id strings, through FromStr and through serde alike
+                    for framed in [format!("{text}\n"), format!(" {text}"), format!("{text} "), format!("\t{text}\r\n")] {
+                        with_text::<B, K>(rec, &framed, "framed", false, kind, body, total);
+                    }
+                    for at in [header.len(), header.len() + 6, text.len() - 2] {
+                        let folded = format!("{}\u{571}{}", &text[..at], &text[at + 2..]);
+                        with_text::<B, K>(rec, &folded, "folded", false, kind, body, total);
+                    }
+                }
+            }
+            fn with_text<B: Backend, K: paseto_core::key::KeyType>(rec: &mut Recorder, text: &str, header: &str, exact: bool, kind: &str, body: &[u8], total: &mut u64) {
+                let r = catch_unwind(AssertUnwindSafe(|| {
+                    let parsed = text.parse::<KeyId<B::V, K>>().map(|k| (k.to_string(), k.as_bytes().to_vec(), serde_json::to_value(&k).ok()));
+                    // serde is a second way in and out: it accepts exactly the strings FromStr accepts, with the same value, and writes the text
+                    let de = serde_json::from_value::<KeyId<B::V, K>>(serde_json::Value::String(text.to_string())).map(|k| k.as_bytes().to_vec());
+                    (parsed, de)
+                }));
+                let (ok, back, bytes_back, de_ok, serde_same, panic) = match r {
+                    Ok((Ok((t, b, ser)), de)) => (true, t == text, b[..] == body[..], de.is_ok(), de.map(|d| d == b).unwrap_or(false) && ser == Some(serde_json::Value::String(t.clone())), false),
+                    Ok((Err(_), de)) => (false, false, false, de.is_ok(), true, false),
+                    Err(_) => (false, false, false, false, false, true),
                 };
-                rec.emit(json!({"fn":"idparse","be":B::NAME,"id_kind":kind,"len":body.len(),"header_exact":exact,"header":header,"ok":ok,"text_back":back,"bytes_back":bytes_back,"panic":panic}));
+                rec.emit(json!({"fn":"idparse","be":B::NAME,"id_kind":kind,"len":body.len(),"header_exact":exact,"header":header,"ok":ok,"text_back":back,"bytes_back":bytes_back,
+                    "de_ok":de_ok,"serde_same":serde_same,"panic":panic}));
                 *total += 1;
             }
             for len in 0..=40usize {
